@@ -4,6 +4,7 @@ DRIVERS = {
     "drv_set": ("Extract_set.v", "drv_set.ml", "set_model"),
     "drv_addr": ("Extract_addr.v", "drv_addr.ml", "addr_model"),
     "drv_iauth": ("Extract_iauth.v", "drv_iauth.ml", "iauth_model"),
+    "drv_conf": ("Extract_conf.v", "drv_conf.ml", "conf_model"),
 }
 
 HOOK_COMMITS = ["9dc863c"]
